@@ -69,7 +69,9 @@ MANIFEST = dict(
          "are evaluated in C06_list_root_example. Differential only: index spellings with blanks inside the brackets, "
          "a record list DEEPER in an n0list-rooted tree (P starting with an index: 15 % of the generated trees keep a list root, "
          "all forms and chained selections, evaluator and model stream), a scalar `items` "
-         "(the engine raises IndexError there, which aborts the whole fan-out - outside the property's quantifier, see notes). The "
+         "(fix C06-h: a single value does not satisfy a condition, that parent contributes nothing - before, IndexError left the "
+         "fan-out loop and hid the selections of all other parents; C06_scalar_inner_example; 20 % of the generated order lists "
+         "carry scalar `items` in some parents). The "
          "model of the resolver is compared with the real code on all selecting forms and chained selections at depth 0-3 under "
          "random spellings of P (list elements at varying indexes), with string, int, bool, float and None fields, list-valued "
          "projected fields, missing fields, duplicates, occurring and non-occurring literals, the empty literal, empty inner "
@@ -134,7 +136,7 @@ def gen_records(rng, numeric=False, nested=False, odd=False):
     return recs
 
 
-def gen_orders(rng, hidden=False):
+def gen_orders(rng, hidden=False, scalar=False):
     """outer records that share few key values, each with a (possibly empty / missing) inner list whose records share
     few key values too: chained selections then select in several parents; hidden=True: some parents carry ONE record
     (a dict) under `items` instead of a list of records"""
@@ -158,6 +160,9 @@ def gen_orders(rng, hidden=False):
             if hidden and items and rng.random() < 0.4:
                 # "hidden list": ONE record stored directly instead of a one-element list of records
                 r["items"] = items[0]
+            elif scalar and rng.random() < 0.3:
+                # a single value where the records are expected (fix C06-h): this parent contributes nothing, the others are selected
+                r["items"] = rng.choice(["x", "B", 5, None, ""])
             else:
                 r["items"] = items
         recs.append(r)
@@ -478,6 +483,10 @@ def run(ctx):
         tree, pos = wrap_at_depth(rng, recs, rng.choice([0, 1, 2, 3]))
         P = spell_P(rng, tree, pos, rng.random() < 0.5)
         form = rng.choice(["star", "implicit", "eq", "eq", "text", "ne", "contains"])
+        if not pos and form != "star" and rng.random() < 0.4:
+            # the root list is the record list: the fan-out written out ([*][k=v]/f, [*]/k[text()=v]/../f, [*]/f) - the loop of
+            # n0list._find itself, with a '..' below it
+            P = rng.choice(["[*]", "/[*]", "//[*]"])
         k, f = rng.choice(FIELDS), rng.choice(FIELDS)
         occurring = [r[k] for r in recs if k in r]
         v = rng.choice(occurring) if occurring and rng.random() < 0.7 else rng.choice((ODD_VALS if odd else SVALS) + ["zz", ""])
@@ -495,9 +504,12 @@ def run(ctx):
         cases.append({"tree": tree, "mode": rng.choice(["n0", "wrap"]), "pos": pos, "form": form, "k": k, "f": f, "v": v if isinstance(v, str) else vs, "xp": xp})
     ctx.evaluate("select", cases, check_select, in_known=in_known, nontrivial=lambda c: len(X.get_at(c["tree"], c["pos"])) > 1)
     for _ in range(ctx.budget(400, 8000)):
-        recs = gen_orders(rng, hidden=rng.random() < 0.5) if rng.random() < 0.65 else gen_records(rng, nested=True, numeric=rng.random() < 0.2)
+        recs = gen_orders(rng, hidden=rng.random() < 0.5, scalar=rng.random() < 0.2) if rng.random() < 0.65 \
+            else gen_records(rng, nested=True, numeric=rng.random() < 0.2)
         tree, pos = wrap_at_depth(rng, recs, rng.choice([0, 1, 2, 3]))
         P = spell_P(rng, tree, pos, rng.random() >= 0.5)
+        if not pos and rng.random() < 0.4:
+            P = rng.choice(["[*]", "/[*]", "//[*]"])
         k1 = "id" if rng.random() < 0.6 else rng.choice(FIELDS)
         ids = [r[k1] for r in recs if k1 in r and "items" in r]
         v1 = rng.choice(ids) if ids and rng.random() < 0.8 else rng.choice(SVALS)
@@ -532,6 +544,8 @@ def run(ctx):
         "selecting": sum(1 for c in chained if sel_recs(c)),
         "several_parents": sum(1 for c in chained if len(sel_recs(c)) > 1),
         "hidden_parent_selected": sum(1 for c in chained if any(isinstance(r["items"], dict) for r in sel_recs(c))),
+        "scalar_items_next_to_selected_parents": sum(1 for c in chained if sel_recs(c) and any(
+            "items" in r and not isinstance(r["items"], (list, dict)) for r in X.get_at(c["tree"], c["pos"]))),
         "first_unwraps_to_single_value": sum(1 for c in chained if [len(x) for x in chained_oracle(X.get_at(c["tree"], c["pos"]), c)
                                                                    if isinstance(x, list)] == [1] and len(sel_recs(c)) == 1),
         "list_valued_field_selected": sum(1 for c in chained if c["f"] == "tags" and sel_recs(c)),
@@ -576,5 +590,5 @@ def run(ctx):
     ctx.extra["assumptions"] = [
         "record fields are plain names; literals are taken from / absent from the data",
         "theorems: the record list at any position of a dict-rooted tree, every spelling of its path (prefix, ][ vs ]/[, index as i, -k, last(), last()-k, i+j), chained selections with `items` a list of dict records or one dict record, first() on them; an n0list root that is the record list itself; index texts with blanks, record lists deeper in a list-rooted tree and scalar `items` are covered by B and C only",
-        "the implementation under test carries the fix patches C06-a, C06-c, C06-b, C06-e and C06-f",
+        "the implementation under test carries the fix patches C06-a, C06-c, C06-b, C06-e, C06-f and C06-h",
     ]
